@@ -1,5 +1,6 @@
 import NfcVerif.Gen.FnT4
 import NfcVerif.Model.IsoDep
+import NfcVerif.Model.T4
 import NfcVerif.Lemmas.FnBridgePdu
 /-!
 # Bridge theorems, group T4 (`nfc/tag/tt4.py` -> `Gen/FnT4.lean` -> `Model/IsoDep.lean`; C12, C08, C01)
@@ -155,6 +156,42 @@ theorem t4b_params_bridge (sensb : Bytes) (maxSend : Nat) :
     · simp [h10, h11]
   · simp [h10]
 
+theorem t4a_params_bridge (rats : Bytes) (maxSend : Nat) :
+    (Gen.Fn.t4a_params rats maxSend >>= fun r => .ok (pcdOf r)) = activateA rats maxSend := by
+  unfold Gen.Fn.t4a_params activateA
+  by_cases h1 : 1 < rats.length
+  · have e1 : rats[1]? = some (at0 rats 1) := by rw [at0_lt h1]; exact List.getElem?_eq_getElem h1
+    simp only [e1]
+    generalize ht0 : at0 rats 1 = t0
+    py_bits
+    simp only [getB_nat, h1, if_true, Py.bind_ok, ht0]
+    py_bits
+    simp only [ite_cast, Int.ofNat_lt, getB_nat]
+    generalize hk : (if ¬t0 &&& 16 = 0 then 3 else 2) = k
+    by_cases h32 : t0 &&& 32 = 0
+    · simp only [h32, not_true, false_and, if_false, Py.bind_ok]
+      simp only [ite_cast, Int.ofNat_lt]
+      exact params_tail _ rfl _ _ _
+    · by_cases hkl : k < rats.length
+      · have ek : rats[k]? = some (at0 rats k) := by rw [at0_lt hkl]; exact List.getElem?_eq_getElem hkl
+        simp only [h32, not_false_eq_true, hkl, and_self, if_true, Py.bind_ok, ek]
+        py_bits
+        simp only [ite_cast, Int.ofNat_lt]
+        exact params_tail _ rfl _ _ _
+      · have ek : rats[k]? = none := List.getElem?_eq_none (by omega)
+        simp only [h32, not_false_eq_true, hkl, and_false, if_false, if_true, Py.bind_ok, ek]
+        simp only [ite_cast, Int.ofNat_lt]
+        exact params_tail _ rfl _ _ _
+  · have e1 : rats[1]? = none := List.getElem?_eq_none (by omega)
+    simp only [e1]
+    py_bits
+    simp only [h1, if_false, Py.bind_ok]
+    simp only [ite_cast, Int.ofNat_lt]
+    exact params_tail _ rfl _ _ _
+
+example : Gen.Fn.t4a_params [5, 0x78, 0x80, 0x70, 0x02] 256 = .ok (256, 7) := by decide +kernel
+example : Gen.Fn.t4a_params [1] 100 = .ok (32, 4) := by decide +kernel
+
 example : Gen.Fn.t4_apdu_build 0 0xA4 4 0 [0xD2, 0x76] 256 false = .ok [0, 0xA4, 4, 0, 2, 0xD2, 0x76, 0] := by decide +kernel
 example : Gen.Fn.t4_apdu_build 0 0xB0 0 0 [] 65536 true = .ok [0, 0xB0, 0, 0, 0, 0, 0] := by decide +kernel
 example : Gen.Fn.t4_apdu_build 0 0xB0 0 0 [] 257 false = .error .value := by decide +kernel
@@ -162,5 +199,130 @@ example : Gen.Fn.t4_apdu_status [1, 2, 0x6A, 0x82] true = .error (.tagCmd 0x6A82
 example : Gen.Fn.t4_apdu_status [1, 2, 0x90, 0x00] true = .ok [1, 2] := by decide +kernel
 example : Gen.Fn.t4_apdu_status [0x90] false = .error (.tagCmd (-2)) := by decide +kernel
 example : Gen.Fn.t4b_params [0x50, 1, 2, 3, 4, 0, 0, 0, 0, 0, 0x81, 0x71] 200 = .ok (200, 7) := by decide +kernel
+
+/-! ## capability container and READ BINARY arguments (`Model/T4.lean`, C01/C08)
+
+`discoverTail` is the text of `T4.discover` behind its second `readBinary` (`discover_eq : .. := rfl`); the cut of
+`_discover_ndef` returns `False` or the tuple of the attributes it stores, `infoVal` is that encoding of the model's
+`Option Info`.  `ext` of the source is `!v.shortApdu`; the 16 bit offset clamp of the repaired code is
+`v.offsetClamp = true`. -/
+
+theorem len15 {l : Bytes} (h : l.length = 15) :
+    ∃ a0 a1 a2 a3 a4 a5 a6 a7 a8 a9 a10 a11 a12 a13 a14, l = [a0, a1, a2, a3, a4, a5, a6, a7, a8, a9, a10, a11, a12, a13, a14] := by
+  match l, h with
+  | [a0, a1, a2, a3, a4, a5, a6, a7, a8, a9, a10, a11, a12, a13, a14], _ =>
+    exact ⟨a0, a1, a2, a3, a4, a5, a6, a7, a8, a9, a10, a11, a12, a13, a14, rfl⟩
+
+/-- `_discover_ndef` behind the second `_read_binary`, as `T4.discover` has it -/
+def discoverTail (v : T4.Variant) (caps : Bytes) : Py (Option T4.Info) :=
+  if caps.length < 13 then .ok none else
+  match caps ++ T34.zeros (15 - caps.length) with
+  | [ver, e1, e0, c1, c0, tag, plen, v0, v1, v2, v3, v4, v5, v6, v7] =>
+    let val := [v0, v1, v2, v3, v4, v5, v6, v7].take (min plen 8)
+    if ¬ (ver / 16 = 1 ∨ ver / 16 = 2 ∨ ver / 16 = 3) then .ok none
+    else if ¬ ((tag = 4 ∧ val.length = 6) ∨ (tag = 6 ∧ val.length = 8)) then .ok none
+    else
+      let mfs : Nat := if tag = 4 then beNat [v2, v3] else beNat [v2, v3, v4, v5]
+      let rf := if tag = 4 then v4 else v6
+      let wf := if tag = 4 then v5 else v7
+      let mle := e1 * 256 + e0
+      let mlc := c1 * 256 + c0
+      .ok (some { maxLe := if v.shortApdu then min mle 256 else mle,
+                  maxLc := if v.shortApdu then min mlc 255 else mlc,
+                  capacity := ((if v.offsetClamp then min mfs 65536 else mfs : Nat) : Int) - tag + 2,
+                  readable := decide (rf = 0), writeable := decide (wf = 0),
+                  nlenSize := tag - 2, fid := [v0, v1] })
+  | _ => .error .struct
+
+theorem discover_eq (v : T4.Variant) (c : T4.Card) :
+    T4.discover v c = (T4.readBinary c c.cc 15 0 2 >>= fun cclen =>
+      if cclen.length ≠ 2 then .ok none else
+      T4.readBinary c c.cc 15 2 (min ((beNat cclen : Int) - 2) 15) >>= fun caps => discoverTail v caps) := rfl
+
+/-- the result of the cut: `False` or the tuple of the stored attributes -/
+def infoVal : Option T4.Info → Val
+  | none => .bool false
+  | some i => .tuple [.int i.maxLe, .int i.maxLc, .int i.capacity, .bool i.readable, .bool i.writeable,
+      .int i.nlenSize, .bytes i.fid]
+
+theorem repeat_zero (n : Int) : PyFn.repeatL [0] n = T34.zeros n.toNat := by
+  unfold PyFn.repeatL T34.zeros
+  induction n.toNat with
+  | zero => rfl
+  | succ k ih => simp [List.replicate_succ, ih]
+
+theorem cc_parse_bridge (v : T4.Variant) (caps : Bytes) (hv : v.offsetClamp = true) :
+    Gen.Fn.t4_cc_parse caps (!v.shortApdu) = (discoverTail v caps >>= fun o => .ok (infoVal o)) := by
+  unfold Gen.Fn.t4_cc_parse discoverTail
+  rw [repeat_zero]
+  have e15 : ((15 : Int) - PyFn.len caps).toNat = 15 - caps.length := by rw [len_eq]; omega
+  rw [e15]
+  py_bits
+  by_cases h13 : caps.length < 13
+  · simp [h13, infoVal]
+  · simp only [h13, or_false, false_or, if_false]
+    generalize hP : caps ++ T34.zeros (15 - caps.length) = P
+    by_cases hl : P.length = 15
+    · obtain ⟨ver, e1, e0, c1, c0, tag, plen, v0, v1, v2, v3, v4, v5, v6, v7, rfl⟩ := len15 hl
+      simp only [List.length_cons, List.length_nil, if_true, Py.bind_ok]
+      have hpas : pascal [ver, e1, e0, c1, c0, tag, plen, v0, v1, v2, v3, v4, v5, v6, v7] (((0 + 6 : Nat) : Int)) 9
+          = [v0, v1, v2, v3, v4, v5, v6, v7].take (min plen 8) := by
+        unfold pascal
+        rw [ube_one]
+        have : (((0 + 6 : Nat) : Int) + 1) = ((7 : Nat) : Int) := by omega
+        rw [this, Int.toNat_natCast, sub_nat]
+        simp [at0]
+      rw [hpas]
+      have hm : min plen 8 = 0 ∨ min plen 8 = 1 ∨ min plen 8 = 2 ∨ min plen 8 = 3 ∨ min plen 8 = 4 ∨ min plen 8 = 5
+          ∨ min plen 8 = 6 ∨ min plen 8 = 7 ∨ min plen 8 = 8 := by omega
+      generalize min plen 8 = m at hm
+      simp only [at0, Nat.zero_add]
+      rcases hm with rfl | rfl | rfl | rfl | rfl | rfl | rfl | rfl | rfl
+      all_goals (
+        by_cases ht4 : tag = 4 <;> by_cases ht6 : tag = 6 <;> cases hs : v.shortApdu <;>
+          simp [infoVal, hv, hs, ht4, ht6, ube, beNat, PyFn.imin, Nat.min_def] <;>
+          (try (split <;> simp)) <;>
+          (try (repeat' constructor)) <;>
+          (try (all_goals (split <;> split <;> omega))) <;>
+          (try (intros; omega)))
+    · -- more or fewer than 15 octets: `struct.error`
+      have hne : ¬ (P.length = 15) := hl
+      simp only [hne, if_false, Py.bind_error]
+      have : (match P with
+          | [ver, e1, e0, c1, c0, tag, plen, v0, v1, v2, v3, v4, v5, v6, v7] => (Except.ok none : Py (Option T4.Info))
+          | _ => .error .struct) = .error .struct := by
+        split
+        · simp at hne
+        · rfl
+      split
+      · simp at hne
+      · rfl
+
+/-- `_read_binary(offset, size)`: the regenerated argument computation, then the part of `T4.readBinary` that
+follows (`send_apdu` refuses Le > 256, sends no Le field for `max_data <= 0`, the card answers) -/
+theorem read_binary_bridge (c : T4.Card) (f : Bytes) (maxLe off : Nat) (size : Int) :
+    T4.readBinary c f maxLe off size
+      = (Gen.Fn.t4_read_binary_args off size maxLe >>= fun r =>
+          if r.2.2 > 256 then .error .value
+          else if r.2.2 ≤ 0 then .ok []
+          else T4.cardRead c f (r.1.toNat * 256 + r.2.1.toNat) r.2.2.toNat) := by
+  unfold Gen.Fn.t4_read_binary_args T4.readBinary
+  rw [pack_Hbe]
+  by_cases h : off > 65535
+  · simp [h]
+  · have h1 : off / 256 < 256 := by omega
+    simp only [h, if_false, Py.bind_ok, len_eq, List.length_cons, List.length_nil]
+    have e0 : (0 : Int) = ((0 : Nat) : Int) := rfl
+    have e1 : (1 : Int) = ((1 : Nat) : Int) := rfl
+    simp only [e0, e1, getB_nat]
+    simp [at0, PyFn.imin, Int.min_def]
+    have e2 : ((off : Int) / 256).toNat * 256 + ((off : Int) % 256).toNat = off := by omega
+    have e3 : (if (maxLe : Int) ≤ size then (maxLe : Int) else size) = (if size < (maxLe : Int) then size else (maxLe : Int)) := by
+      split <;> split <;> omega
+    rw [e2, e3]
+
+example : Gen.Fn.t4_cc_parse [0x20, 0, 0x3B, 0, 0x34, 4, 6, 0xE1, 4, 0x10, 0, 0, 0] false
+    = .ok (.tuple [.int 59, .int 52, .int 4094, .bool true, .bool true, .int 2, .bytes [0xE1, 4]]) := by rfl
+example : Gen.Fn.t4_cc_parse [0x40, 0, 0x3B, 0, 0x34, 4, 6, 0xE1, 4, 0x10, 0, 0, 0] false = .ok (.bool false) := by rfl
 
 end NfcVerif.FnBridge.T4
